@@ -739,6 +739,15 @@ def _(M, a, c):
 
 # ------------------------------------------------------------------ str / String
 ENUMS.setdefault('Cow', ['Borrowed', 'Owned'])
+def byte_eq(M, x, y):
+    """equality of two string elements; a Dec element stands for the decimal digits (and sign) of a symbolic integer and never equals a
+    byte outside [-0-9]"""
+    if isinstance(x, Dec) or isinstance(y, Dec):
+        o = y if isinstance(x, Dec) else x
+        if isinstance(o, Dec): return True if o is (x if o is y else y) else (_ for _ in ()).throw(Unsupported("comparison of two rendered symbolic integers"))
+        if isinstance(o, Int) and not o.sym() and not (0x30 <= o.v <= 0x39 or o.v == 0x2d): return False
+        raise Unsupported("a pattern may match inside the rendering of a symbolic integer")
+    return M.binop('Eq', x, y)
 def _bytes(x):
     v = x
     while isinstance(v, Ref): v = V(v)
@@ -799,7 +808,7 @@ def _(M, a, c):
         m = len(pb)
         def eq_at(i):
             r = True
-            for x, y in zip(items[i:i + m], pb): r = band(r, M.binop('Eq', x, y))
+            for x, y in zip(items[i:i + m], pb): r = band(r, byte_eq(M, x, y))
             return r
         if fn == 'starts_with': return eq_at(0) if m <= n else False
         if fn == 'ends_with': return eq_at(n - m) if m <= n else False
